@@ -13,4 +13,6 @@ CONSTANTS
   AtomicCommit = TRUE
   SnapshotScan = TRUE
   Alias = {}
+  TrackTouch = FALSE
+  MisTag = {}
 CHECK_DEADLOCK FALSE
